@@ -242,7 +242,7 @@ def handle_path_command(args: argparse.Namespace) -> None:  # noqa: PLR0912
     if args.query is not None:
         query = args.query
     else:
-        query = args.query_file.read().strip()
+        query = args.path_file.read().strip()
 
     try:
         path = jsonpath.JSONPathEnvironment(
